@@ -19,6 +19,7 @@ def lower_keys(keys):
 class Plugin:
     ID = "C16"
     RUN_MODULE = "C16.Run"
+    GEN = []
     CLAUSES = {1: "refines"}
     SHARD = 300
     RULE = ("operation sequences over header-map variables (random, plus every 2-operation "
